@@ -75,12 +75,13 @@ DecodeRobust(r) == r.out # "panic" /\ (r.out = "accept" => r.typeok) /\ ~r.both
 RelOK(rel, out) ==
     CASE rel.shape = "badshape" -> out = "reject"
       [] rel.shape \in {"absent", "nodata", "null"} -> out = "accept" => rel.got = <<>>
-      [] rel.shape \in {"ident", "identbadtype"} -> out = "accept" => (rel.to1 /\ rel.got = rel.listed)
+      [] rel.shape \in {"ident", "identbadtype", "identnotype"} -> out = "accept" => (rel.to1 /\ rel.got = rel.listed)
+      [] rel.shape = "badtypenoid" -> out = "accept" => rel.got = <<>>
       [] rel.shape = "list"  -> out = "accept" => (~rel.to1 /\ rel.got = rel.listed)
       [] OTHER -> FALSE
 
 \* an identifier object for a to-many, or a list for a to-one, cannot be accepted
-ShapeFits(rel) == (rel.shape \in {"ident", "identbadtype"} => rel.to1) /\ (rel.shape = "list" => ~rel.to1)
+ShapeFits(rel) == (rel.shape \in {"ident", "identbadtype", "identnotype", "badtypenoid"} => rel.to1) /\ (rel.shape = "list" => ~rel.to1)
 
 \* e: [out, rels, attrs_same (present attributes hold the payload's values),
 \*     absent_zero (absent fields hold zero values), idtype_same, remarshal_same]
